@@ -113,6 +113,12 @@ Proof.
   rewrite !remove_char_app, !double_bs_app. rewrite <- app_assoc. reflexivity.
 Qed.
 
+Lemma serialise_nonempty a l : serialise (a :: l) <> [].
+Proof.
+  rewrite serialise_cons.
+  destruct (double_bs (remove_char c_lf (remove_char c_cr (serialise_arg a)))); discriminate.
+Qed.
+
 Lemma serialise_no_lf l : has_chr c_lf (serialise l) = false.
 Proof. unfold serialise. rewrite has_chr_double_bs by reflexivity. apply has_chr_remove. Qed.
 
@@ -510,33 +516,33 @@ Proof.
   - cbn [fold_left]. destruct s as [| | |b]; cbn [rescan_from] in H.
     + subst key. destruct (c =? c_bs) eqn:Ebs.
       * apply N.eqb_eq in Ebs. subst c. rewrite xstep_RN_bs.
-        rewrite (IH RF st acc [] st') by (cbn; auto). reflexivity.
+        rewrite (IH RF st acc [] st' I eq_refl H). reflexivity.
       * destruct ((c =? c_dollar) || (c =? c_pct)) eqn:Epre.
         -- rewrite xstep_RN_prefix by assumption.
-           rewrite (IH RP (c =? c_dollar) acc [] st') by (cbn; auto).
+           rewrite (IH RP (c =? c_dollar) acc [] st' I eq_refl H).
            cbn [pending]. now rewrite pfx_of.
         -- rewrite xstep_RN_other by assumption.
-           rewrite (IH RN st (acc ++ [c]) [] st') by (cbn; auto).
+           rewrite (IH RN st _ [] st' I eq_refl H).
            cbn [pending app]. now rewrite <- app_assoc.
     + subst key. destruct ((c =? c_dollar) || (c =? c_pct)) eqn:Epre; [discriminate|].
       rewrite xstep_RF by assumption.
-      rewrite (IH RN st _ [] st') by (cbn; auto).
+      rewrite (IH RN st _ [] st' I eq_refl H).
       cbn [pending app]. now rewrite <- !app_assoc.
     + subst key. destruct (c =? c_lbrace) eqn:Elb.
       * apply N.eqb_eq in Elb. subst c. rewrite xstep_RP_open.
-        rewrite (IH (RK false) st acc [] st') by (cbn; auto). reflexivity.
+        rewrite (IH (RK false) st acc [] st' eq_refl I H). reflexivity.
       * rewrite xstep_RP_other by assumption.
-        rewrite (IH RN st _ [] st') by (cbn; auto).
+        rewrite (IH RN st _ [] st' I eq_refl H).
         cbn [pending app]. now rewrite <- !app_assoc.
     + destruct (c =? c_rbrace) eqn:Erb; [discriminate|].
       destruct (should_break_key c) eqn:Ebr.
       * rewrite xstep_RK_break by assumption.
-        rewrite (IH RN st _ [] st') by (cbn; auto).
+        rewrite (IH RN st _ [] st' I eq_refl H).
         cbn [pending app]. rewrite <- !app_assoc. reflexivity.
       * rewrite xstep_RK_key by assumption.
-        rewrite (IH (RK true) st acc (key ++ [c]) st'); [| |exact I|assumption].
-        -- cbn [pending app]. rewrite <- !app_assoc. reflexivity.
-        -- cbn [key_ok]. destruct key; reflexivity.
+        erewrite (IH (RK true) st acc _ st' _ I H).
+        cbn [pending app]. rewrite <- !app_assoc. reflexivity.
+        Unshelve. cbn [key_ok]. destruct key; reflexivity.
 Qed.
 
 Lemma words_single a : a <> [] -> has_chr c_sp a = false -> words a = [a].
@@ -608,7 +614,7 @@ Proof.
   assert (Hnl : forallb (fun a => negb (cls_NL a)) args = true).
   { apply forallb_forall. intros a Ha. rewrite forallb_forall in Hs. apply Hs in Ha.
     apply safe_inv in Ha. destruct Ha as [-> _]. reflexivity. }
-  assert (Htext : serialise (cmd :: args) = (cmd ++ tailtxt args) ++ [c_sp]).
+  assert (Htext : serialise (@cons str cmd args) = (cmd ++ tailtxt args) ++ [c_sp]).
   { rewrite serialise_cons, ser_cmd by (try assumption; discriminate).
     rewrite serialise_args by assumption. apply reshape. }
   assert (Hends : ends_with_ws (cmd ++ tailtxt args) = false).
@@ -616,7 +622,7 @@ Proof.
     - cbn [tailtxt flat_map]. rewrite app_nil_r. now apply cmd_ends.
     - rewrite ends_with_ws_app; [apply tailtxt_ends; try assumption; discriminate|].
       unfold tailtxt. cbn [flat_map app]. discriminate. }
-  assert (Hparse : parse_line (serialise (cmd :: args)) = POk (IScript None None (Some cmd) (opt_list args))).
+  assert (Hparse : parse_line (serialise (@cons str cmd args)) = POk (IScript None None (Some cmd) (opt_list args))).
   { rewrite Htext. unfold parse_line. subst cmd. cbn [app].
     change (c0 :: (cmd' ++ tailtxt args) ++ [c_sp]) with ((c0 :: cmd' ++ tailtxt args) ++ [c_sp]).
     rewrite trim_line by assumption.
@@ -633,7 +639,7 @@ Proof.
     unfold parse_arguments, parse_arguments_with.
     rewrite parse_tail; [reflexivity|assumption|apply length_tailtxt]. }
   unfold eval_call, eval_parse, parse_text, parse_text_src.
-  rewrite lines_single; [|apply serialise_no_lf|rewrite Htext; destruct (cmd ++ tailtxt args); discriminate].
+  rewrite lines_single; [|apply serialise_no_lf|apply serialise_nonempty].
   cbn [parse_lines_from]. rewrite Hparse. cbn [preprocess app i_type].
   f_equal. destruct args as [|a args]; [reflexivity|].
   cbn [opt_list bind_command_arguments]. now apply bind_args_safe.
